@@ -6,15 +6,18 @@ import (
 	"os"
 	"path/filepath"
 	"strings"
+	"sync/atomic"
 
 	"verif/internal/gen"
 )
+
+var markSeq atomic.Int64
 
 // Import materialises a generated history in the git repository at dir
 // (already initialised) through git fast-import and returns the commit ids by
 // commit index. The temporary refs/verif/* refs are deleted afterwards.
 func (g *Git) Import(dir string, h *gen.History) ([]string, error) {
-	marks := filepath.Join(g.Home, fmt.Sprintf("marks-%d", Calls.Load()))
+	marks := filepath.Join(g.Home, fmt.Sprintf("marks-%d-%d", os.Getpid(), markSeq.Add(1)))
 	r := g.RunIn(dir, h.FastImport(), "fast-import", "--quiet", "--force", "--export-marks="+marks)
 	if !r.OK() {
 		return nil, fmt.Errorf("fast-import: %s", r)
